@@ -313,6 +313,29 @@ PROPS = {
                                      "monitor on the implementation's trace: observable events are the implementation's, unobservable ones (frame consumption, fresh values) are aligned from the model's run"],
         "assumptions": ["frames delivered atomically (segmentation is C08's subject)", "event times distinct from tick instants and adapter completions"],
     },
+    "C20": {
+        "props_file": "Props/C20.v",
+        "run_files": ["Run/CaseC20.v"],
+        "imports": ["Lib.Bytes", "Lib.IpText", "Adapters.Agones", "Run.CaseC20"],
+        "case_type": "c20case",
+        "checkers": {f: "check_c20" for f in ("PLAIN", "DELETE", "UNCONV", "STATEKEY", "DROP", "GONE", "MIX")},
+        "harness": [{"bin": "agones", "crate": "harness-k8s"}],
+        "shard": 20,
+        "quick_scale": 1, "thorough_scale": 8, "search_factor": 4,
+        "ties": ["harness-k8s/src/bin/agones.rs: the real AgonesDiscoveryAdapter (kube client, watcher, default backoff) against a hand-written "
+                 "HTTP mock of the Kubernetes API under a paused tokio clock; discover() after every digested step",
+                 "kube-level events recorded from a second kube::runtime::watcher stream on the same mock"],
+        "allowed_axioms": [],
+        "rule": "agones binary: 7 witness histories + seeded histories per family over 1-5 GameServers (state changes, deletes while Ready, "
+                "unconvertible objects, metadata key collisions incl. 'state', bookmarks, dropped connections with missed changes, 410 on the "
+                "live and on the resumed watch, failed and paginated re-lists); non-trivial = history with at least one step and one non-empty offered set",
+        "trusted_base": COMMON_TB + ["kube 3.0.1 client/runtime: translation of HTTP list/watch into watcher::Event (exercised by the mock, not proved)",
+                                     "hand model of agones/src/{lib,discovery_adapter}.rs in Adapters/Agones.v (tied by the agones correspondence)",
+                                     "Lib/IpText.v for IpAddr::from_str / Display (tied by the iptext harness)",
+                                     "harness-k8s mock API server and its notion of the server's truth (latest object per name)"],
+        "assumptions": ["identity of a GameServer is metadata.name (no equal names across namespaces)",
+                        "the property speaks about the observed event history: staleness between a lost watch and InitDone is inherent to list/watch"],
+    },
 }
 
 
